@@ -68,15 +68,15 @@ impl Cfg {
     fn generate(seed: u64, index: u64) -> Cfg {
         let mut st = seed ^ index.wrapping_mul(0xD6E8_FEB8_6659_FD93) ^ 0xC20;
         let threads = 2 + below(&mut st, 7) as usize;
-        const PARTS: [&str; 20] = ["", "_", "a", "tmp_0_0", "0", "1_2", "name-part", "x_1", "index.gbz", "v1.2", ".", "a.b.c", "x", "./x", "<TMP>/x", "Vec<u64>", "a:b", "what?", "tab\there", "star*|\"q\""];
+        const PARTS: [&str; 24] = ["", "_", "a", "tmp_0_0", "0", "1_2", "name-part", "x_1", "index.gbz", "v1.2", ".", "a.b.c", "x", "./x", "<TMP>/x", "Vec<u64>", "a:b", "what?", "tab\there", "star*|\"q\"", "{pid}", "shard-{count}", "{name}_{pid}_{count}", "{}"];
         let same = below(&mut st, 3) == 0;
         let long = |st: &mut u64| -> String { let n = [200usize, 245, 250, 255, 300][below(st, 5) as usize]; let mut s = String::from("long-"); while s.len() < n { s.push((b'a' + (s.len() % 26) as u8) as char); } s };
-        let first = if below(&mut st, 16) == 0 { long(&mut st) } else { PARTS[below(&mut st, 20) as usize].to_string() };
+        let first = if below(&mut st, 16) == 0 { long(&mut st) } else { PARTS[below(&mut st, 24) as usize].to_string() };
         let mut calls = Vec::new();
         let mut parts = Vec::new();
         for _ in 0..threads {
             calls.push(1 + below(&mut st, 4) as usize);
-            parts.push(if same { first.clone() } else if below(&mut st, 20) == 0 { long(&mut st) } else { PARTS[below(&mut st, 20) as usize].to_string() });
+            parts.push(if same { first.clone() } else if below(&mut st, 20) == 0 { long(&mut st) } else { PARTS[below(&mut st, 24) as usize].to_string() });
         }
         let main_calls = below(&mut st, 3) as usize;
         let stale = if below(&mut st, 4) == 0 { 1 + below(&mut st, 6) as usize } else { 0 };
